@@ -107,7 +107,8 @@ def main():
             for sv in sorted(set(subs)):
                 if sv == data[off]: continue
                 k += 1
-                if ctx.tier == 'thorough' or (k % DIV == pick) or (off < strict_upto and kind == 'ao' and k % 3 == pick % 3): cases.append((use, 'subst', off, sv))
+                full = ctx.tier == 'thorough' and (sv == data[off] ^ 0xff or off < strict_upto or k % 4 == pick % 4)
+                if full or (k % DIV == pick) or (off < strict_upto and kind == 'ao' and k % 3 == pick % 3): cases.append((use, 'subst', off, sv))
     ctx.log('%d damaged files x 2 builds' % len(cases))
     regions = {f: ao_regions(intact[f]) for f in intact if f.endswith('.ao')}
     def region_of(fn, off):
